@@ -161,9 +161,28 @@ pub trait PacketTrait: Serialize {
 
     /// Length in bytes used when calling `to_writer_with_header`.
     fn write_len_with_header(&self) -> usize {
-        let mut sum = self.packet_header().write_len();
-        sum += self.write_len();
-        sum
+        let original_header = self.packet_header();
+        let body_len = self.write_len();
+
+        // Mirror `to_writer_with_header`: fixed and partial lengths are written out
+        // as a fixed length header derived from the current body length.
+        let normalized_header = match original_header.packet_length().maybe_len() {
+            Some(_) => u32::try_from(body_len).ok().and_then(|len| {
+                PacketHeader::from_parts(
+                    original_header.version(),
+                    original_header.tag(),
+                    PacketLength::Fixed(len),
+                )
+                .ok()
+            }),
+            None => None,
+        };
+
+        let header_len = match normalized_header {
+            Some(header) => header.write_len(),
+            None => original_header.write_len(),
+        };
+        header_len + body_len
     }
 }
 
